@@ -37,9 +37,9 @@ func run(cfg *hx.RunCfg) (*hx.Result, error) {
 	}
 	t := cx.Tier{Seed: cfg.Seed, N: cfg.N, Check: cx.CheckC04, Printer: cx.CoqCase}
 	if t.N == 0 {
-		t.N = 72
+		t.N = 60
 		if cfg.Tier == "thorough" {
-			t.N, t.Budget = 1500, 7*time.Minute // as many of the 1500 as fit; the i-th program depends on (seed, i) only
+			t.N, t.Budget = 1500, 5*time.Minute // as many of the 1500 as fit; the i-th program depends on (seed, i) only
 		}
 	}
 	for _, p := range cx.CorpusC04() {
